@@ -329,10 +329,32 @@ def write_evidence(pid, doc):
 # ---------------------------------------------------------------------------
 # the batch
 
+def remove_stale_scratch(max_age_s=7200):
+    """Scratch directories of runs that were killed (a finally: never ran):
+    remove the ones nobody can still be using."""
+    import shutil
+    import tempfile
+    tmp = tempfile.gettempdir()
+    now = time.time()
+    try:
+        names = os.listdir(tmp)
+    except OSError:
+        return
+    for n in names:
+        if n.startswith("zcsim-"):
+            p = os.path.join(tmp, n)
+            try:
+                if now - os.stat(p).st_mtime > max_age_s:
+                    shutil.rmtree(p, ignore_errors=True)
+            except OSError:
+                pass
+
+
 def run_check(pid, tier, seed, workers=None, runs=None, wall=None,
               write=True, out=print):
     mod = load_prop(pid)
     t0 = time.time()
+    remove_stale_scratch()
     n_runs, wall_s = mod.BUDGET[tier]
     if runs is not None:
         n_runs = runs
